@@ -150,4 +150,387 @@ theorem roundHE_error (q : Rat) (hq : 0 ≤ q) (p : Nat) :
     (Nat.pow_pos (by decide)) hb.1 hb.2
   rwa [← rat_eq_natAbs_div q hq] at this
 
+/-! ## `parseF64` on a printed value -/
+
+/-- the numeric branch of `parseF64` for a given sign pattern. -/
+def parseNum (sign : Nat) (body : List Char) : Option Nat :=
+  match splitDecimal body with
+    | none => none
+    | some (ip, fp, e) =>
+      let mant := digitsVal (ip ++ fp)
+      let e10 : Int := e - (fp.length : Int)
+      if mant = 0 then some sign
+      else
+        let digits : Int := ((Nat.toDigits 10 mant).length : Int)
+        if e10 + digits > 400 then some (sign + 2047 * 2 ^ 52)
+        else if e10 + digits < -400 then some sign
+        else
+          let q : Rat := if e10 ≥ 0 then (mant * 10 ^ e10.toNat : Nat) else (mant : Rat) / ((10 ^ (-e10).toNat : Nat) : Rat)
+          some (sign + f64BitsOfRatNonneg q)
+
+theorem log2_gap (N D k : Nat) (hN : N ≠ 0) (h : N * 2 ^ k < D) : log2Nat N + k ≤ log2Nat D := by
+  unfold log2Nat
+  have h1 : 2 ^ N.log2 ≤ N := Nat.log2_self_le hN
+  have h2 : D < 2 ^ (D.log2 + 1) := Nat.lt_log2_self
+  have h3 : 2 ^ (N.log2 + k) < 2 ^ (D.log2 + 1) := by
+    rw [Nat.pow_add]
+    exact Nat.lt_of_le_of_lt (Nat.mul_le_mul_right _ h1) (Nat.lt_trans h h2)
+  have := (Nat.pow_lt_pow_iff_right (a := 2) (by decide)).1 h3
+  omega
+
+set_option exponentiation.threshold 2000 in
+theorem f64BitsOfRatNonneg_tiny (x : Rat) (h0 : 0 < x) (h : 2 * (x.num.natAbs * 2 ^ 1074) < x.den) :
+    f64BitsOfRatNonneg x = 0 := by
+  have hN : x.num.natAbs ≠ 0 := by
+    intro h1
+    have := Int.natAbs_eq_zero.1 h1
+    have := Rat.num_pos.2 h0
+    omega
+  have h' : x.num.natAbs * 2 ^ (1074 + 1) < x.den := by
+    rw [Nat.pow_succ, ← Nat.mul_assoc, Nat.mul_comm]; exact h
+  have hg := log2_gap _ _ _ hN h'
+  unfold f64BitsOfRatNonneg
+  rw [if_neg (not_le.2 h0)]
+  extract_lets num den e0 ge e eeff sh
+  have he0 : e0 ≤ -1075 := by simp only [e0, num, den]; omega
+  have he1 : e ≤ e0 + 1 := by
+    simp only [e]
+    split
+    · split <;> omega
+    · omega
+  have he : e < -1022 := by omega
+  have heeff : eeff = -1022 := by simp only [eeff, he, if_true]
+  have hsh : sh = -1074 := by simp only [sh, heeff]; rfl
+  have hsh2 : ¬ (sh ≥ 0) := by omega
+  have hsh3 : (-sh).toNat = 1074 := by rw [hsh]; rfl
+  clear_value sh eeff e ge e0
+  rw [if_neg hsh2, hsh3]
+  generalize (2 : Nat) ^ 1074 = K at h ⊢
+  split
+  rename_i n2 d2 heq
+  obtain ⟨h1, h2⟩ := Prod.mk.inj heq
+  show (if e < -1022 then roundHE n2 d2 else _) = 0
+  rw [if_pos he, ← h1, ← h2]
+  exact roundHE_zero _ _ h
+
+theorem f64BitsOfRatNonneg_zero (x : Rat) (h : x ≤ 0) : f64BitsOfRatNonneg x = 0 := by
+  unfold f64BitsOfRatNonneg; rw [if_pos h]
+
+/-! ## order facts between naturals and rationals -/
+
+theorem nat_div_lt (N D K : Nat) (hD : 0 < D) (h : N < K * D) : (N : Rat) / (D : Rat) < (K : Rat) := by
+  have hD' : (0 : Rat) < (D : Rat) := by exact_mod_cast hD
+  rw [div_lt_iff₀ hD']
+  exact_mod_cast h
+
+theorem rat_num_lt (r : Rat) (hr : 0 ≤ r) (K : Nat) (h : r < (K : Rat)) : r.num.natAbs < K * r.den := by
+  rw [rat_eq_natAbs_div r hr, div_lt_iff₀ (rat_den_pos r)] at h
+  exact_mod_cast h
+
+theorem rat_num_mul_lt (r : Rat) (hr : 0 ≤ r) (K : Nat) (h : r * (K : Rat) < 1) : r.num.natAbs * K < r.den := by
+  rw [rat_eq_natAbs_div r hr, div_mul_eq_mul_div, div_lt_one (rat_den_pos r)] at h
+  exact_mod_cast h
+
+theorem nat_div_mul_lt_one (m T K : Nat) (hT : 0 < T) (h : m * K < T) : (m : Rat) / (T : Rat) * (K : Rat) < 1 := by
+  have hT' : (0 : Rat) < (T : Rat) := by exact_mod_cast hT
+  rw [div_mul_eq_mul_div, div_lt_one hT']
+  exact_mod_cast h
+
+
+theorem big_consts : 2 ^ 1024 < 10 ^ 309 ∧ 2 * 2 ^ 1074 ≤ 10 ^ 401 := by decide +kernel
+
+/-- the reader's quotient expression for exponent `0 - p`. -/
+theorem parse_quot (m p : Nat) :
+    (if (0 : Int) - (p : Int) ≥ 0 then (((m * 10 ^ ((0 : Int) - (p : Int)).toNat : Nat)) : Rat)
+      else (m : Rat) / ((10 ^ (-((0 : Int) - (p : Int))).toNat : Nat) : Rat)) = (m : Rat) / ((10 ^ p : Nat) : Rat) := by
+  by_cases hp : p = 0
+  · subst hp; simp
+  · have h1 : ¬ ((0 : Int) - (p : Int) ≥ 0) := by omega
+    have h2 : (-((0 : Int) - (p : Int))).toNat = p := by omega
+    rw [if_neg h1, h2]
+
+set_option exponentiation.threshold 2000 in
+theorem parseNum_fmtScaled (sign m p : Nat) (hm : m ≤ 2 ^ 1024 * 10 ^ p) :
+    parseNum sign (fmtScaled m p) = some (sign + f64BitsOfRatNonneg ((m : Rat) / ((10 ^ p : Nat) : Rat))) := by
+  obtain ⟨ip, fp, hs, hl, hv⟩ := splitDecimal_fmtScaled m p
+  have hT : 0 < 10 ^ p := Nat.pow_pos (by decide)
+  unfold parseNum
+  simp only [hs, hv, hl]
+  by_cases hm0 : m = 0
+  · subst hm0
+    rw [if_pos rfl, f64BitsOfRatNonneg_zero _ (by simp)]
+    rfl
+  rw [if_neg hm0]
+  have hLpos : 0 < (Nat.toDigits 10 m).length := Nat.length_toDigits_pos
+  have hL1 : (Nat.toDigits 10 m).length ≤ 309 + p := by
+    rw [Nat.length_toDigits_le_iff (by decide) (by omega), Nat.pow_add]
+    exact Nat.lt_of_le_of_lt hm (Nat.mul_lt_mul_of_pos_right big_consts.1 hT)
+  have hL2 : m < 10 ^ (Nat.toDigits 10 m).length :=
+    (Nat.length_toDigits_le_iff (by decide) hLpos).1 (Nat.le_refl _)
+  rw [if_neg (by omega)]
+  split
+  · rename_i hg
+    have hx0 : (0 : Rat) < (m : Rat) / ((10 ^ p : Nat) : Rat) := by
+      apply div_pos
+      · exact_mod_cast Nat.pos_of_ne_zero hm0
+      · exact_mod_cast hT
+    have hlt : m * (2 * 2 ^ 1074) < 10 ^ p := by
+      have h1 : (Nat.toDigits 10 m).length + 401 ≤ p := by omega
+      calc m * (2 * 2 ^ 1074) < 10 ^ (Nat.toDigits 10 m).length * 10 ^ 401 :=
+            Nat.mul_lt_mul_of_lt_of_le hL2 big_consts.2 (Nat.pow_pos (by decide))
+        _ = 10 ^ ((Nat.toDigits 10 m).length + 401) := (Nat.pow_add _ _ _).symm
+        _ ≤ 10 ^ p := Nat.pow_le_pow_right (by decide) h1
+    have h3 := rat_num_mul_lt _ (le_of_lt hx0) _ (nat_div_mul_lt_one m (10 ^ p) (2 * 2 ^ 1074) hT hlt)
+    rw [f64BitsOfRatNonneg_tiny _ hx0 (by rw [Nat.mul_left_comm]; exact h3)]
+    rfl
+  · rw [parse_quot]
+
+
+/-! ## sign and word branches of `parseF64` -/
+
+theorem lower_digit {c : Char} (h : c.isDigit = true) : lower c = c := by
+  have := isDigit_toNat h
+  unfold lower
+  rw [if_neg]
+  rintro ⟨h1, _⟩
+  have : 'A'.toNat ≤ c.toNat := h1
+  simp at this
+  omega
+
+theorem digit_head_not_word (c : Char) (t : List Char) (hc : c.isDigit = true) :
+    ¬ ((c :: t).map lower = "inf".toList ∨ (c :: t).map lower = "infinity".toList) ∧
+    ¬ ((c :: t).map lower = "nan".toList) := by
+  have hd := isDigit_toNat hc
+  rw [List.map_cons, lower_digit hc]
+  refine ⟨?_, ?_⟩
+  · rintro (h | h)
+    · have h1 : c = 'i' := (List.cons.inj h).1
+      subst h1; simp at hd
+    · have h1 : c = 'i' := (List.cons.inj h).1
+      subst h1; simp at hd
+  · intro h
+    have h1 : c = 'n' := (List.cons.inj h).1
+    subst h1; simp at hd
+
+theorem sign_match_digit (c : Char) (t : List Char) (hc : c.isDigit = true) :
+    (match c :: t with
+      | '-' :: r => (true, r)
+      | '+' :: r => (false, r)
+      | _ => (false, c :: t)) = (false, c :: t) := by
+  have hd := isDigit_toNat hc
+  split
+  · rename_i h
+    have h1 : c = '-' := (List.cons.inj h).1
+    subst h1; simp at hd
+  · rename_i h
+    have h1 : c = '+' := (List.cons.inj h).1
+    subst h1; simp at hd
+  · rfl
+
+theorem parseF64_digit_head (c : Char) (t : List Char) (hc : c.isDigit = true) :
+    parseF64 (c :: t) = parseNum 0 (c :: t) := by
+  obtain ⟨hw1, hw2⟩ := digit_head_not_word c t hc
+  unfold parseF64 parseNum
+  split
+  rename_i x neg r4 heq
+  have h2 := heq.symm.trans (sign_match_digit c t hc)
+  obtain ⟨rfl, rfl⟩ := Prod.mk.inj h2
+  simp only [hw1, hw2, if_false, Bool.false_eq_true]
+  rfl
+
+theorem parseF64_neg_digit_head (c : Char) (t : List Char) (hc : c.isDigit = true) :
+    parseF64 ('-' :: c :: t) = parseNum (2 ^ 63) (c :: t) := by
+  obtain ⟨hw1, hw2⟩ := digit_head_not_word c t hc
+  unfold parseF64 parseNum
+  simp only [hw1, hw2, if_false, if_true]
+  rfl
+
+/-! ## finite doubles are below 2^1024 -/
+
+theorem absRat_neg (x : Rat) : absRat (-x) = absRat x := by
+  unfold absRat
+  split <;> split <;> linarith
+
+set_option exponentiation.threshold 2000 in
+/-- numerator/denominator of a finite binary64 magnitude: below `2^1024`. -/
+theorem f64_mag_lt (e m : Nat) (he : e < 2047) (hm : m < 2 ^ 52) :
+    (if (e == 0) = true then m else if e ≥ 1075 then (2 ^ 52 + m) * 2 ^ (e - 1075) else 2 ^ 52 + m) <
+      2 ^ 1024 * (if (e == 0) = true then 2 ^ 1074 else if e ≥ 1075 then 1 else 2 ^ (1075 - e)) := by
+  have hp : ∀ k, 0 < 2 ^ k := fun k => Nat.pow_pos (by decide)
+  by_cases h0 : e = 0
+  · subst h0
+    simp only [beq_self_eq_true, if_true]
+    calc m < 2 ^ 52 := hm
+      _ ≤ 2 ^ 52 * (2 ^ 972 * 2 ^ 1074) := Nat.le_mul_of_pos_right _ (Nat.mul_pos (hp _) (hp _))
+      _ = 2 ^ 1024 * 2 ^ 1074 := by rw [← Nat.mul_assoc, ← Nat.pow_add]
+  · have hb : (e == 0) = false := by simpa using h0
+    simp only [hb, Bool.false_eq_true, if_false]
+    split
+    · rename_i hge
+      have h1 : 2 ^ (e - 1075) ≤ 2 ^ 971 := Nat.pow_le_pow_right (by decide) (by omega)
+      calc (2 ^ 52 + m) * 2 ^ (e - 1075) < 2 ^ 53 * 2 ^ 971 :=
+            Nat.mul_lt_mul_of_lt_of_le (by omega) h1 (hp _)
+        _ = 2 ^ 1024 * 1 := by rw [← Nat.pow_add, Nat.mul_one]
+    · calc 2 ^ 52 + m < 2 ^ 53 := by omega
+        _ ≤ 2 ^ 53 * (2 ^ 971 * 2 ^ (1075 - e)) := Nat.le_mul_of_pos_right _ (Nat.mul_pos (hp _) (hp _))
+        _ = 2 ^ 1024 * 2 ^ (1075 - e) := by rw [← Nat.mul_assoc, ← Nat.pow_add]
+
+set_option exponentiation.threshold 2000 in
+theorem f64OfBits_fin_lt (b : Nat) (q : Rat) (h : f64OfBits b = .fin q) : absRat q < ((2 ^ 1024 : Nat) : Rat) := by
+  unfold f64OfBits at h
+  extract_lets sign e m num den mag at h
+  split at h
+  · split at h <;> cases h
+  · rename_i he
+    have he' : e < 2047 := by
+      have : e < 2 ^ 11 := Nat.mod_lt _ (by decide)
+      have : e ≠ 2047 := by simpa using he
+      omega
+    have hm : m < 2 ^ 52 := Nat.mod_lt _ (by decide)
+    have hlt := f64_mag_lt e m he' hm
+    have hden : 0 < den := by
+      simp only [den]
+      split
+      · exact Nat.pow_pos (by decide)
+      · split
+        · decide
+        · exact Nat.pow_pos (by decide)
+    have hmag : mag < ((2 ^ 1024 : Nat) : Rat) := nat_div_lt num den _ hden hlt
+    have hmag0 : 0 ≤ mag := div_nonneg (Nat.cast_nonneg _) (Nat.cast_nonneg _)
+    injection h with h
+    rw [← h]
+    split
+    · rw [absRat_neg, absRat_of_nonneg _ hmag0]; exact hmag
+    · rw [absRat_of_nonneg _ hmag0]; exact hmag
+
+/-! ## re-reading a printed finite value -/
+
+theorem roundHE_scaled_le (r : Rat) (hr : 0 ≤ r) (p : Nat) (h : r < ((2 ^ 1024 : Nat) : Rat)) :
+    roundHE (r.num.natAbs * 10 ^ p) r.den ≤ 2 ^ 1024 * 10 ^ p := by
+  have h1 := rat_num_lt r hr _ h
+  apply roundHE_le
+  have h2 := Nat.mul_lt_mul_of_pos_right h1 (Nat.pow_pos (n := p) (show 0 < 10 by decide))
+  rwa [Nat.mul_right_comm] at h2
+
+theorem parseF64_fmtFixed_fin (b p : Nat) (q : Rat) (hf : f64OfBits b = .fin q) :
+    parseF64 (fmtFixed b p) =
+      some ((if f64Sign b then 2 ^ 63 else 0) +
+        f64BitsOfRatNonneg ((roundHE ((absRat q).num.natAbs * 10 ^ p) (absRat q).den : Rat) / ((10 ^ p : Nat) : Rat))) := by
+  have hle := roundHE_scaled_le (absRat q) (absRat_nonneg q) p (f64OfBits_fin_lt b q hf)
+  obtain ⟨c, t, hct, hc⟩ := fmtRatFixed_head (absRat q) p
+  rw [fmtFixed_fin b p q hf]
+  cases f64Sign b
+  · rw [if_neg (by decide), if_neg (by decide), List.nil_append, hct, parseF64_digit_head c t hc, ← hct,
+      fmtRatFixed_eq, parseNum_fmtScaled _ _ _ hle]
+  · rw [if_pos rfl, if_pos rfl, List.singleton_append, hct, parseF64_neg_digit_head c t hc, ← hct,
+      fmtRatFixed_eq, parseNum_fmtScaled _ _ _ hle]
+
+theorem parseF64_fmtFixed_some (b p : Nat) : ∃ v, parseF64 (fmtFixed b p) = some v := by
+  cases h : f64OfBits b with
+  | fin q => exact ⟨_, parseF64_fmtFixed_fin b p q h⟩
+  | nan => rw [fmtFixed_nan b p h]; exact ⟨_, parseF64_NaN⟩
+  | inf s =>
+    rw [fmtFixed_inf b p s h]
+    cases s
+    · exact ⟨_, parseF64_inf⟩
+    · exact ⟨_, parseF64_neg_inf⟩
+
+/-! ## the text reader on the writer's output -/
+
+theorem joinNats_chars (sep : List Char) (shape : List Nat) :
+    ∀ c ∈ joinNats sep shape, c ∈ sep ∨ c.isDigit = true := by
+  induction shape with
+  | nil => intro c hc; cases hc
+  | cons a rest ih =>
+    cases rest with
+    | nil => intro c hc; exact .inr (showNat_isDigit a c (by simpa [joinNats] using hc))
+    | cons b rest =>
+      intro c hc
+      rw [joinNats_cons_cons] at hc
+      simp only [List.mem_append] at hc
+      rcases hc with (hc | hc) | hc
+      · exact .inr (showNat_isDigit a c hc)
+      · exact .inl hc
+      · exact ih c hc
+
+theorem textHeader_chars (shape : List Nat) : ∀ c ∈ textHeader shape, c.toNat < 128 ∧ c ≠ '\n' := by
+  intro c hc
+  unfold textHeader at hc
+  simp only [List.mem_append] at hc
+  rcases hc with (hc | hc) | hc
+  · revert c; decide
+  · rcases joinNats_chars _ _ c hc with h | h
+    · rw [List.mem_singleton] at h; subst h; exact ⟨by decide, by decide⟩
+    · have := isDigit_toNat h
+      refine ⟨by omega, ?_⟩
+      rintro rfl
+      simp at this
+  · revert c; decide
+
+theorem fmtFixed_chars (b p : Nat) : ∀ c ∈ fmtFixed b p, c.toNat < 128 := by
+  unfold fmtFixed
+  split
+  · decide
+  · split <;> decide
+  · intro c hc
+    simp only [List.mem_append] at hc
+    rcases hc with hc | hc
+    · split at hc
+      · revert c; decide
+      · cases hc
+    · rcases fmtRatFixed_chars _ _ c hc with h | rfl
+      · exact isDigit_lt128 h
+      · decide
+
+theorem writeText_chars (shape bits : List Nat) (p : Nat) : ∀ c ∈ writeText shape bits p, c.toNat < 128 := by
+  intro c hc
+  unfold writeText at hc
+  simp only [List.mem_append] at hc
+  rcases hc with ((hc | hc) | hc) | hc
+  · exact (textHeader_chars shape c hc).1
+  · revert c; decide
+  · cases bits with
+    | nil => cases hc
+    | cons b rest =>
+      simp only [foldl_sep_eq, List.mem_append, List.mem_flatMap, List.mem_cons] at hc
+      rcases hc with hc | ⟨x, _, rfl | hc⟩
+      · exact fmtFixed_chars b p c hc
+      · decide
+      · exact fmtFixed_chars x p c hc
+  · revert c; decide
+
+theorem mapM_map_some {α β γ} (t : α → β) (f : β → Option γ) (g : α → γ) (l : List α)
+    (h : ∀ x ∈ l, f (t x) = some (g x)) : (l.map t).mapM f = some (l.map g) := by
+  induction l with
+  | nil => rfl
+  | cons a rest ih =>
+    simp only [List.map_cons, List.mapM_cons, h a (by simp), ih (fun x hx => h x (by simp [hx]))]
+    rfl
+
+theorem readText_writeText (shape bits : List Nat) (p : Nat) (hne : shape ≠ [])
+    (hb : ∀ v ∈ shape, v < 2 ^ 64) (hcs : checkedSize shape = some bits.length) :
+    ∃ bits', readText (asciiBytes (writeText shape bits p)) = .ok (shape, bits') ∧
+      bits'.map some = bits.map (fun b => parseF64 (fmtFixed b p)) := by
+  obtain ⟨line, hw, hsplit⟩ := writeText_tokens shape bits p (fun b => fmtFixed_tok b p)
+  have hascii := allAscii_asciiBytes _ (writeText_chars shape bits p)
+  have hg : ∀ b ∈ bits, parseF64 (fmtFixed b p) = some ((parseF64 (fmtFixed b p)).getD 0) := by
+    intro b _
+    obtain ⟨v, hv⟩ := parseF64_fmtFixed_some b p
+    rw [hv]; rfl
+  have hmap := mapM_map_some (fun b => fmtFixed b p) parseF64 (fun b => (parseF64 (fmtFixed b p)).getD 0) bits hg
+  have htw := takeWhile_append_stop (fun c : Char => decide (c ≠ '\n')) (textHeader shape) ('\n' :: (line ++ ['\n']))
+    (fun x hx => decide_eq_true (textHeader_chars shape x hx).2) (by simp)
+  have hchars : writeText shape bits p = textHeader shape ++ '\n' :: (line ++ ['\n']) := by
+    rw [hw]; simp
+  refine ⟨bits.map (fun b => (parseF64 (fmtFixed b p)).getD 0), ?_, ?_⟩
+  · unfold readText
+    rw [hascii]
+    simp only [Bool.not_true, Bool.false_eq_true, if_false, bytesToChars_asciiBytes]
+    rw [hchars, htw.1, htw.2, List.drop_one, List.tail_cons, parseTextHeader_textHeader shape hne hb]
+    simp only [hsplit, hmap, List.length_map, hcs, if_true]
+  · rw [List.map_map]
+    apply List.map_congr_left
+    intro b hb'
+    exact (hg b hb').symm
+
 end Sfs
